@@ -38,8 +38,22 @@ def _idle_case(rng, letter):
         return p
 
 
+def _turn_case(rng, fam):
+    """a cut controlled rotation by more than a whole turn, control in superposition, X / Y observed on the control"""
+    import math
+    theta = rng.choice([1, -1]) * (2 * math.pi * rng.choice([1, 3]) + rng.choice([0.7, 1.9, math.pi / 2]))
+    instrs = [{"name": "h", "qubits": [0]}, {"name": "ry", "qubits": [1], "params": [0.8]},
+              {"name": fam, "qubits": [0, 1], "params": [theta]}, workflow.gen.rand_1q(rng, 1)]
+    return {"nq": 2, "qregs": [2], "instrs": instrs, "labels": [0, 1], "pool_idx": rng.sample(range(len(workflow.gen.LABEL_POOL)), 2),
+            "obs": [{"l": "XI", "p": 0}, {"l": "YZ", "p": 0}, {"l": "XX", "p": 0}], "idle": [], "part": [0, 1]}
+
+
 def cases(rng, tier):
     N = 60 if tier == "quick" else 700
+    for fam in ("crx", "cry", "crz", "cp"):
+        p = _turn_case(rng, fam)
+        p.update(form="dict", N=None, seed=0)
+        yield ("roundtrip", p)
     # families that are present whatever the seed
     for letter in "XYZ":
         p = _idle_case(rng, letter)
